@@ -460,7 +460,7 @@ def o3_register(chk, prog, cap, pre_names, pre_steps):
 def o3_replies(chk, prog, queue, codes):
     name = 'O3-replies-queue[%s]-%s' % (','.join(queue), ''.join(codes))
     ob = chk.begin(name, 'Server::recv with statements %r awaiting their ParseComplete and the reply %s+Z: each ParseComplete retires the '
-                   'OLDEST pending statement, each ErrorResponse retires it AND forgets it' % (queue, ''.join(codes)),
+                   'OLDEST pending statement, an ErrorResponse retires AND forgets every statement still pending (the failed one and those the server skips until Sync)' % (queue, ''.join(codes)),
                    {'pending': list(queue), 'reply': list(codes)})
     recv = fn(prog, 'Server::recv')
     ip = chk.interp(prog, name)
@@ -477,7 +477,9 @@ def o3_replies(chk, prog, queue, codes):
                     refq.pop(0)
             elif c == 'E':
                 reply += b'E' + (len(ERR_BODY) + 4).to_bytes(4, 'big') + ERR_BODY
-                if refq:
+                # replies come in the order of the requests and after an error the server skips everything up to Sync: every statement still
+                # pending is either the one that failed or one the server will never look at -- none of them exists on the server
+                while refq:
                     refc.remove(refq.pop(0))
             else:
                 reply += b'2\x00\x00\x00\x04'
